@@ -43,6 +43,7 @@ func (info *decodeInfo) decodeCharString(code []byte, name string) (*Glyph, erro
 
 	var postscriptStack []float64
 	var flexData []float64
+	inFlex := false
 
 	res := &Glyph{}
 
@@ -55,6 +56,13 @@ func (info *decodeInfo) decodeCharString(code []byte, name string) (*Glyph, erro
 		isClosed = true
 	}
 	rMoveTo := func(dx, dy float64) {
+		if inFlex {
+			// between the flex start and end calls, rmoveto only records
+			// the flex reference and control points
+			posX += dx
+			posY += dy
+			return
+		}
 		if !isClosed {
 			rClosePath()
 		}
@@ -406,14 +414,12 @@ glyphLoop:
 						})
 					}
 					postscriptStack = postscriptStack[:len(postscriptStack)-1]
+					inFlex = false
 				case 1: // flex start (0 args)
 					flexData = flexData[:0]
+					inFlex = true
 				case 2: // flex coordinate pair (0 args)
 					flexData = append(flexData, posX, posY)
-					if len(res.Cmds) > 0 {
-						// remove the rmoveTo command
-						res.Cmds = res.Cmds[:len(res.Cmds)-1]
-					}
 				case 3: // hint replacement (1 arg)
 					postscriptStack = append(postscriptStack[:0], 3)
 				default:
